@@ -48,6 +48,7 @@ import (
 	"sync/atomic"
 	"time"
 
+	"github.com/containerd/containerd/v2/pkg/reference"
 	"github.com/containerd/stargz-snapshotter/fs/config"
 	"github.com/containerd/stargz-snapshotter/fs/layer"
 
@@ -85,6 +86,8 @@ func body(r *vf.Run) {
 		top(r)
 	case "seq", "conc":
 		stage(r)
+	case "l3":
+		stageL3(r)
 	default:
 		r.Inconclusive("unknown stage " + r.Child)
 	}
@@ -116,6 +119,7 @@ func top(r *vf.Run) {
 	add("conc", true, r.N(12, 70), r.N(12, 35))
 	add("seq", true, r.N(8, 40), r.N(8, 20))
 	add("conc", false, r.N(24, 170), r.N(24, 85))
+	add("l3", false, r.N(8, 60), r.N(8, 30))
 
 	// the layer pool is a function of VERIF_SEED only; built once, handed to the children
 	poolPath = filepath.Join(r.Scratch, "pool.gob")
@@ -332,6 +336,7 @@ type kase struct {
 	bgWG         sync.WaitGroup
 	bgMaybe      bool // a background Prefetch/BackgroundFetch goroutine may still be running
 
+	mirror              reference.Spec
 	skipVerify          bool // this case uses SkipVerify instead of Verify everywhere (seq stage, 1 in 10)
 	leakF, leakH, leakB int  // already attributed to failed resolves
 	verifiedAcross      int
@@ -398,6 +403,21 @@ func newCase(r *vf.Run, idx int, race bool, rng *prng.R) *kase {
 		return nil
 	}
 	c.w = w
+	// a "bad mirror": another repository of the same registry that holds, under each layer's
+	// digest, an object of a different size and different bytes (Refresh against it resolves
+	// but must be refused)
+	for i, ls := range layers {
+		bad := make([]byte, len(ls.Built.Blob)+4096)
+		for j := range bad {
+			if j < len(ls.Built.Blob) {
+				bad[j] = ^ls.Built.Blob[j]
+			} else {
+				bad[j] = 0xee
+			}
+		}
+		w.Reg.AddBlobAs("reg.test", "mirror", w.Img.Layers[i].Digest, bad)
+	}
+	c.mirror, _ = reference.Parse("reg.test/mirror:v1")
 	return c
 }
 
@@ -776,6 +796,49 @@ func (c *kase) opRefresh(h *holder, f *fault) {
 	c.markAcross(h.li, "refresh", nil)
 }
 
+// opRefreshRefused: a connectivity refresh against a source that resolves but holds an
+// object of a different size under the layer's digest (what fs.check does with a second,
+// stale source). The refresh must be refused, and - clause 1, "regardless of connectivity
+// refreshes" - the held layer must go on serving the right bytes from its original source:
+// every holder of that layer then reads EVERY regular file in full through a fresh root node
+// (files not read before need the registry).
+func (c *kase) opRefreshRefused(h *holder) {
+	err := h.l.Refresh(bg, c.w.Env.Hosts, c.mirror, c.w.Img.Layers[h.li])
+	c.op("RefreshRefused(h%d:L%d)->%v", h.id, h.li, err != nil)
+	c.count("op_refresh_refused", 1)
+	if err == nil {
+		c.violate("refresh-against-different-size-object:accepted", "Refresh against a source whose object under the layer's digest has a different size returned nil")
+		return
+	}
+	c.distinct("refused_refresh_errors", errClass(err))
+	c.markAcross(h.li, "refused-refresh", nil)
+	for _, hh := range c.holdersOf(h.li) {
+		if !c.opVerify(hh) {
+			continue
+		}
+		root, rerr := lx.Root(hh.l)
+		if rerr != nil {
+			c.readViolation(hh, rerr)
+			continue
+		}
+		hh.root = root
+		ls := c.w.Layers[hh.li]
+		ok := true
+		for _, p := range ls.Files {
+			if rerr := lx.ReadFull(root, ls, p); rerr != nil {
+				c.readViolation(hh, rerr)
+				ok = false
+				break
+			}
+		}
+		c.count("op_read", len(ls.Files))
+		if ok {
+			c.verifiedAcross++
+			c.count("reads_ok_after_refused-refresh", 1)
+		}
+	}
+}
+
 func (c *kase) opCheck(h *holder) {
 	err := h.l.Check()
 	c.op("Check(h%d:L%d)->%v", h.id, h.li, err == nil)
@@ -1122,8 +1185,10 @@ func (c *kase) runSeq() {
 				f = c.drawFault(h.li, true)
 			}
 			c.opRefresh(h, f)
-		case x < 86:
+		case x < 85:
 			c.opCheck(h)
+		case x < 86:
+			c.opRefreshRefused(h)
 		case x < 89:
 			c.opPrio()
 		case x < 91:
@@ -1145,6 +1210,12 @@ func (c *kase) runSeq() {
 		}
 	}
 	c.opMountUnmount()
+	if len(c.hs) == 0 {
+		c.opResolve(c.rng.Intn(c.cfg.NLayers), nil)
+	}
+	if len(c.hs) > 0 {
+		c.opRefreshRefused(c.hs[c.rng.Intn(len(c.hs))])
+	}
 	// every current holder reads once more before the end (oracle 1)
 	for _, hh := range append([]*holder(nil), c.hs...) {
 		c.opRead(hh, false)
